@@ -57,6 +57,9 @@ def configs(tier, seed):
         # bounded store pool: building and enqueueing a bounce needs storage slots of its own
         cfgs.append(dict(backend=b, backoff='r0x2', n=2, messages=1, d=1, dd=3, menu=MENU, store_pool=1))
         cfgs.append(dict(backend=b, backoff='never', n=2, messages=2, d=1, dd=2, menu=MENU, store_pool=2))
+    # the storage fails one bookkeeping operation (I/O error) after a bounce has already been issued: still one bounce per failure
+    for fo in (['increment_attempts', 'set_timestamp'], ['remove', 'set_recipients_delivered']):
+        cfgs.append(dict(backend='dict', backoff='r0x2', n=2, messages=1, d=0, dd=3, menu=MENU, fail_ops=fo))
     # the same id reported twice (start-up load + wait() announcement, as a shared store does after a restart) while
     # the storage read of the first report is still in flight: still one attempt, one bounce
     cfgs.append(dict(backend='dict', backoff='never', n=2, messages=0, prestored=1, harness_wait=True, slow_ops=['get'], d=3, dd=2, menu=MENU,
